@@ -692,6 +692,9 @@ class _SetOperation(Selectable, Term):
             set_operation_querystring = set_operation_query.get_sql(
                 subquery=self.base_query.wrap_set_operation_queries, **kwargs
             )
+            if isinstance(set_operation_query, _SetOperation) and not self.base_query.wrap_set_operation_queries:
+                # operands are not parenthesised here: keep the nested operation's grouping as a derived table
+                set_operation_querystring = "SELECT * FROM ({query})".format(query=set_operation_querystring)
 
             if len(self.base_query._selects) != len(set_operation_query._selects):
                 raise SetOperationException(
